@@ -201,6 +201,219 @@ def urlless_witness():
     return problems, (reached and not has_url)
 
 
+# ------------------------------------------------------------------------------------------------------------
+# FAMILY regift: the holder B drops its only proxy of A's x and RE-RECEIVES x while the decref / its answer are under way at every
+# position (decref reaches A before / after the re-send was written; the answer reaches B before / after the new my-reference;
+# the gift made before / after either), then gives the re-received proxy to a third Tub C.  Script letters, all on the
+# connection A<->B except G:  S = A sends x (callRemoteOnly), O = B receives A's oldest message (my-reference or decref answer),
+# H = A receives B's oldest message (a decref), D = B drops every proxy + _handleRefLost, G = B gives its proxy to C (the link
+# A<->B stays frozen while the introduction runs).  The oracle is the property: the call carrying the gift completes, C holds a
+# proxy, a call through it reaches x.  regift_model() replays the script on the counters of lib/Refs.v (owner refcount, holder
+# received_count, tracker present, FURL known only from a FIRST my-reference) and tells whether the history is the LISTED one
+# (tracker really freed, then re-created by a non-first my-reference): only then the listed signature is used.
+REGIFT_WITNESSES = [
+    "SODSOGHO",        # the re-send is written and arrives before the decref reaches A; gift while decref and answer are under way
+    "SODSHOGO",        # decref reaches A after the re-send was written; gift between the my-reference and the answer
+    "SODSHOOG",        # ... gift after the answer
+    "SODSOHOG",        # my-reference first, then decref, answer, gift
+    "SODHSOOG",        # decref reaches A BEFORE the re-send: a first send again (new clid), answer and my-reference in order
+    "SODHOSOG",        # everything settled before the re-send
+    "SODSODSOGHHOO",   # two drops, both decrefs under way, the tracker never freed
+    "SODSOHDOSOG",     # second drop after the first decref was processed; answer #1 arrives with received_count 0 ... (model decides)
+]
+
+
+def regift_model(script, need_gift=True):
+    """-> (valid?, listed history at the gift?)  counters only"""
+    a_ref, gen = 0, 0
+    track = {}          # generation -> dict(cnt, url)
+    proxy = None        # generation of the live proxy
+    qo, qh = [], []
+    listed = None
+    for ch in script:
+        if ch == "S":
+            a_ref += 1
+            qo.append(("my", gen, a_ref == 1))
+        elif ch == "O":
+            if not qo:
+                return False, None
+            m = qo.pop(0)
+            if m[0] == "my":
+                t = track.get(m[1])
+                if t is None:
+                    t = track[m[1]] = dict(cnt=0, url=m[2])
+                t["cnt"] += 1
+                proxy = m[1]
+            else:
+                t = track.get(m[1])
+                if t is not None and t["cnt"] == 0:
+                    del track[m[1]]
+        elif ch == "H":
+            if not qh:
+                return False, None
+            g, n = qh.pop(0)
+            if g == gen:
+                a_ref -= n
+                if a_ref == 0:
+                    gen += 1
+            qo.append(("ack", g))
+        elif ch == "D":
+            if proxy is None:
+                return False, None
+            t = track[proxy]
+            qh.append((proxy, t["cnt"]))
+            t["cnt"] = 0
+            proxy = None
+        elif ch == "G":
+            if proxy is None or listed is not None:
+                return False, None
+            listed = not track[proxy]["url"]
+    return (listed is not None or not need_gift), listed
+
+
+def regift_scenario(script):
+    """-> (problems, nontrivial?, label)"""
+    from foolscap.referenceable import RemoteReference
+    valid, listed = regift_model(script)
+    if not valid:
+        return [], False, "invalid"
+    E.reset_clock()
+    net = Net()
+    pems = [p for _, p in pems_sorted(3)]
+    A, B, C = make_tub(net, "a", pems[0]), make_tub(net, "b", pems[1]), make_tub(net, "c", pems[2])
+    x = Obj()
+    btarget, csink = Obj(), Obj()
+    fb, fc = B.registerReference(btarget), C.registerReference(csink)
+    got = {}
+    A.getReference(fb).addCallback(lambda r: got.setdefault("bt", r))
+    B.getReference(fc).addCallback(lambda r: got.setdefault("cs", r))
+    settle(net)
+    if set(got) != {"bt", "cs"}:
+        return [("oracle/gift-setup-failed", "regift: setup failed: %r" % (sorted(got),))], False, "setup"
+    rr = got["bt"]
+    link = rr.tracker.broker.transport.link
+    sA = rr.tracker.broker.transport.side
+    sB = 1 - sA
+    run_net(net)
+    fifo = {sA: [], sB: []}
+
+    def account():
+        E.turn()
+        for side in (sA, sB):
+            d = len(link.q[side]) - sum(fifo[side])
+            if d > 0:
+                fifo[side].append(d)
+
+    def deliver(side):
+        if not fifo[side]:
+            return False
+        for i in range(fifo[side].pop(0)):
+            net.step((link, side))
+        return True
+
+    problems = []
+    res = []
+    raced = False
+    for pos, ch in enumerate(script):
+        if ch == "S":
+            rr.callRemoteOnly("take", x)
+        elif ch == "O":
+            if not deliver(sA):
+                return [("oracle/not-delivered", "regift %s: nothing to deliver to the holder at step %d (the model expects a message)"
+                         % (script, pos))], False, "desync"
+        elif ch == "H":
+            if not deliver(sB):
+                return [("oracle/not-delivered", "regift %s: no decref under way at step %d (the model expects one)" % (script, pos))], False, "desync"
+        elif ch == "D":
+            del btarget.got[:]
+            gc.collect()
+        elif ch == "G":
+            if not btarget.got or not isinstance(btarget.got[-1], RemoteReference):
+                return [("oracle/not-delivered", "regift %s: the holder has no proxy at step %d: %r" % (script, pos, btarget.got))], False, "desync"
+            raced = bool(fifo[sA] or fifo[sB])
+            got["cs"].callRemote("take", btarget.got[-1]).addBoth(res.append)
+            account()
+            run_net(net, lambda l: l is link)
+        account()
+    # everything settles
+    for i in range(8):
+        run_net(net)
+        if res:
+            break
+        E.clock.advance(1)
+    ok = res == [1] and len(csink.got) == 1 and isinstance(csink.got[0], RemoteReference)
+    label = "delivered"
+    if ok:
+        before = x.pings
+        out2 = _call(net, csink.got[0], "ping")
+        if x.pings != before + 1:
+            problems.append(("oracle/call-misrouted", "regift %s: a call through the third party's proxy did not reach the original "
+                             "object: %r" % (script, getattr(out2, "value", out2))))
+    else:
+        why = [str(getattr(r, "type", r)) for r in res]
+        if listed:
+            label = "listed-history"        # reported by urlless_witness (same history class); not reported again
+        else:
+            label = "not-delivered"
+            problems.append(("oracle/gift-not-delivered",
+                             "A sends x to B, B drops its only proxy and re-receives x with the decref / its answer under way, then gives the "
+                             "re-received proxy to the third party C (script %s: S=A sends x, O=B receives A's oldest message, H=A receives "
+                             "B's decref, D=B drops its proxies, G=gift): the holder's tracker was never freed without a first "
+                             "my-reference following (model: FURL known), yet the call carrying the gift ended with %r and C received %r"
+                             % (script, why, csink.got)))
+    if btarget.got and isinstance(btarget.got[-1], RemoteReference):
+        before = x.pings
+        out = _call(net, btarget.got[-1], "ping")
+        if x.pings != before + 1:
+            problems.append(("oracle/call-misrouted", "regift %s: a call through the holder's re-received proxy did not reach the "
+                             "original object: %r" % (script, getattr(out, "value", out))))
+    for t in (A, B, C):
+        t.stopService()
+    E.turn()
+    return problems, raced or "D" in script, label
+
+
+def regift_scripts(rng, n):
+    """random executable scripts with exactly one gift and at least one drop"""
+    def executable(t):
+        return regift_model(t, need_gift=False)[0]
+    out = []
+    while len(out) < n:
+        s = "SO"
+        for i in range(rng.randint(4, 12)):
+            ch = rng.choice("SSOOHHDDG")
+            if (ch == "S" and s.count("S") >= 4) or (ch == "G" and "G" in s) or not executable(s + ch):
+                continue
+            s += ch
+        if "G" not in s:
+            for k in range(1, 8):
+                if regift_model(s + "S" + "O" * k + "G")[0]:
+                    s += "S" + "O" * k + "G"
+                    break
+            else:
+                continue
+        if regift_model(s)[0] and "D" in s[:s.index("G")]:
+            out.append(s)
+    return out
+
+
+def regift(ctx):
+    import random
+    rng = random.Random(ctx.seed * 7919 + 8)
+    scripts = list(REGIFT_WITNESSES) + regift_scripts(rng, 40 if ctx.tier == "quick" else 600)
+    with quiet():
+        for script in scripts:
+            try:
+                problems, nontrivial, label = regift_scenario(script)
+            except Exception:
+                import traceback
+                problems, nontrivial, label = [("oracle/gift-exception", "regift %s raised: %s" % (script, traceback.format_exc()[-800:]))], False, "exception"
+            ctx.case(["regift", script], nontrivial=bool(nontrivial))
+            ctx.hist("regift", label)
+            for sig, text in problems:
+                ctx.fail(sig, text, replay=dict(scenario="regift: three Tubs, letters S O H D G as in harness/c08_impl.py", script=script))
+
+
 def name_takeover_witness():
     """the model's do_register takes a name over like Tub._assignName does (GiftsProofs.introduction_refuted_by_name_takeover):
     replay on three real Tubs.  -> what the third party's proxy reaches: "old" | "new" | a description of anything else"""
